@@ -4,6 +4,7 @@ use super::PropResult;
 use crate::core::*;
 use crate::model::calendar as cal;
 use crate::model::instant::*;
+use super::diff::*;
 use astrolabe::{Date, DateTime, DateUtilities};
 use serde_json::{json, Value};
 
@@ -90,29 +91,34 @@ fn judge_date(rec: &mut Rec, day: i64, op: usize, n: u32) {
     if dom >= 29 || crossing.starts_with("cross/BC") || crossing.starts_with("cross/AD→") || n >= (1 << 31) || t.is_none() {
         rec.nontrivial(hash_i128s(&[day as i128, op as i128, n as i128]));
     }
-    let r = trap(|| {
-        let d = Date::from_timestamp((day - cal::DAYS_TO_1970) * 86_400);
-        apply_date(&d, op, n).timestamp() / 86_400 + cal::DAYS_TO_1970
-    });
+    let Some(d) = sane_date(day) else {
+        rec.bin(SKIP_START);
+        return;
+    };
+    let r = trap(|| apply_date(&d, op, n));
     let wit = |obs: Value| {
         let s = cal::ymd(day);
         json!({"start": [s.0, s.1, s.2], "call": format!("Date::{}({})", name, n), "model": t.map(|t| { let e = cal::ymd(t); json!([e.0, e.1, e.2]) }).unwrap_or(json!("outside the representable range")), "observed": obs})
     };
     let nbig = if n >= (1 << 31) { "N>=2^31" } else { "N<2^31" };
     match (r, t) {
-        (Ok(got), Some(t)) => {
+        (Ok(res), Some(t)) => {
             rec.outcome("value");
-            if got != t {
-                let g = cal::ymd(got);
-                let e = cal::ymd(t);
-                let kind = if (g.1, g.2) == (e.1, e.2) { "wrong-year" } else if g.0 == e.0 && g.1 == e.1 { "wrong-day" } else { "wrong-month-or-more" };
-                rec.violation(format!("C05|date|Date::{}|{}|{},{},{}", name, kind, crossing, clamp, nbig), || wit(json!([g.0, g.1, g.2])));
+            match diff_date(&res, t) {
+                Ok(DateDiff::Skip) => rec.bin(SKIP_EXPECTED),
+                Ok(DateDiff::Same) => {}
+                Ok(DateDiff::Differs(got, exp)) => {
+                    let g = trap(|| res.as_ymd()).unwrap_or((0, 0, 0));
+                    let e = cal::ymd(t);
+                    let kind = if (g.1, g.2) == (e.1, e.2) { "wrong-year" } else if g.0 as i64 == e.0 && g.1 == e.1 { "wrong-day" } else { "wrong-month-or-more" };
+                    rec.violation(format!("C05|date|Date::{}|{}|{},{},{}", name, kind, crossing, clamp, nbig), || wit(json!({"result_reads": got, "independently_built_expected_reads": exp})));
+                }
+                Err(p) => rec.violation(format!("C05|date|Date::{}|result-unreadable|{},{}", name, p.class, p.site()), || wit(p.to_json())),
             }
         }
-        (Ok(got), None) => {
+        (Ok(res), None) => {
             rec.outcome("value");
-            let g = cal::ymd(got);
-            rec.violation(format!("C05|date|Date::{}|returned-when-unrepresentable|{}", name, nbig), || wit(json!([g.0, g.1, g.2])));
+            rec.violation(format!("C05|date|Date::{}|returned-when-unrepresentable|{}", name, nbig), || wit(json!({"result_reads": trap(|| date_reads(&res)).unwrap_or_default()})));
         }
         (Err(p), Some(_)) => {
             rec.outcome(if p.class == "Arith" { "panic-arith" } else { "panic" });
@@ -141,23 +147,41 @@ fn judge_datetime(rec: &mut Rec, day: i64, tod: i128, off: i32, op: usize, n: u3
     rec.bin(if off == 0 { "datetime/offset0" } else if ambiguous { "datetime/offset-moves-date" } else { "datetime/offset-same-date" });
     rec.nontrivial(hash_i128s(&[i, off as i128, op as i128, n as i128]));
     let _ = classify(rec, day, op, n, target(day, op, n));
-    let r = trap(|| {
-        let dt = mk_off(i, off);
-        let res = apply_dt(&dt, op, n);
-        (read(&res), offset_secs(&res))
-    });
+    let Some((dt, _)) = sane_value(i, off) else {
+        rec.bin(SKIP_START);
+        return;
+    };
+    let r = trap(|| apply_dt(&dt, op, n));
     let wit = |obs: Value| json!({"start": show(i), "offset": off, "call": format!("DateTime::{}({})", name, n), "model_utc_date_reading": utc_t.map(show), "model_local_date_reading": loc_t.map(show), "observed": obs});
     match r {
-        Ok((got, o)) => {
-            if Some(got) != utc_t && Some(got) != loc_t {
-                if utc_t.is_none() && loc_t.is_none() {
-                    rec.violation(format!("C05|datetime|DateTime::{}|returned-when-unrepresentable", name), || wit(json!(show(got))));
-                } else {
-                    let tod_changed = got.rem_euclid(D) != tod;
-                    rec.violation(format!("C05|datetime|DateTime::{}|{}", name, if tod_changed { "time-of-day-changed" } else { "wrong-date" }), || wit(json!(show(got))));
+        Ok(res) => {
+            if utc_t.is_none() && loc_t.is_none() {
+                rec.violation(format!("C05|datetime|DateTime::{}|returned-when-unrepresentable", name), || wit(json!(trap(|| show(read(&res))).unwrap_or_default())));
+            } else {
+                let mut same = false;
+                let mut skip = false;
+                let mut differs = None;
+                for t in [utc_t, loc_t].into_iter().flatten() {
+                    match diff_with_expected(&res, t, off) {
+                        Ok(Diff::Same) => same = true,
+                        Ok(Diff::Skip) => skip = true,
+                        Ok(Diff::Differs(g, e)) => differs = Some(Ok((g, e))),
+                        Err(p) => differs = Some(Err(p)),
+                    }
                 }
-            } else if o != Some(off) {
-                rec.violation(format!("C05|datetime|DateTime::{}|offset-changed", name), || wit(json!({"offset": format!("{:?}", o)})));
+                if same {
+                } else if skip {
+                    rec.bin(SKIP_EXPECTED);
+                } else {
+                    match differs {
+                        Some(Ok((g, e))) => {
+                            let kind = if g.ns_since.rem_euclid(D) != tod { "time-of-day-changed" } else if g.ns_since != e.ns_since { "wrong-date" } else { g.first_difference(&e) };
+                            rec.violation(format!("C05|datetime|DateTime::{}|{}", name, kind), || wit(json!({"result_reads": g.to_json(), "independently_built_expected_reads(one of the accepted readings)": e.to_json()})));
+                        }
+                        Some(Err(p)) => rec.violation(format!("C05|datetime|DateTime::{}|result-unreadable|{},{}", name, p.class, p.site()), || wit(p.to_json())),
+                        None => {}
+                    }
+                }
             }
         }
         Err(p) => {
